@@ -25,6 +25,7 @@ SwitchSpec == SwitchInit /\ [][SwitchNext /\ UNCHANGED dep]_mcvars
 P_RulePreserved == [][RulePreserved(dep, S, S')]_mcvars
 P_PubRuleOK     == [][PubRuleOK(dep, S, S')]_mcvars
 P_AssignOnOK    == [][op'.o = "assign" => AssignOnOK(dep, S, S', op'.v, op'.e, op'.x)]_mcvars
+P_SelectOnOK    == [][op'.o = "sel" => SelectOnOK(dep, S', 1, op'.names)]_mcvars
 P_NoRaise       == [][~S'.raised]_mcvars
 View == <<dep, S.val>>
 
